@@ -533,6 +533,7 @@ impl G {
     }
     /// run the step on the real crate, record it (unmodelled steps get the observed result shape appended)
     fn push(&mut self, step: String) -> usize {
+        if std::env::var_os("C01_TRACE").is_some() { eprintln!("{} || {}", self.steps.join(" "), step); }
         let mut bad = vec![];
         let o = run_step(&self.store, &step, &mut bad);
         let name = label_of(&step).to_string();
@@ -646,6 +647,8 @@ impl G {
             if self.coin(15) { i = self.push(format!("stack|@{},{}|0", i, i)); }
         }
         let s = self.sh(i);
+        // determinant by cofactor expansion / eigen iterations: keep the matrices small (cost, not correctness)
+        if ["det", "qr", "eigvals", "eig", "solve", "norm"].contains(&b) && s.iter().any(|&d| d > 5) { return false; }
         let r = s.len();
         let n: usize = s.iter().product();
         let t = self.tyi(i);
